@@ -25,6 +25,10 @@ def gen(rnd):
     for _ in range(rnd.choice([0, 1, 2, 4])):
         i = rnd.randrange(2, 6 + len(completed))
         app[i] = app.get(i, []) + [rnd.choice([("text", b"re", True), ("binary", b"\x07", True), ("ping", b"mine"), ("pong", b"unsolicited")])]
+    if rnd.random() < 0.15:
+        # a close() the library refuses (reason too long): nothing is written, and Pings keep being answered
+        i = rnd.randrange(2, 4 + len(completed))
+        app[i] = app.get(i, []) + [("close", 1000, b"r" * rnd.choice([124, 200]))]
     extra = b""
     if tailkind == "server_close_then_pings":
         extra = E(8, ref6455.close_payload(1000, b"")) + E(9, b"after-close")
@@ -58,7 +62,7 @@ def oracle(sc, tr, extra):
             close_attempted = True
         if x["kind"] == "write" and not x["ok"]:
             transport_failed = True
-        if x["kind"] == "call" and x["action"] and x["action"][0] == "close":
+        if x["kind"] == "call" and x["action"] and x["action"][0] == "close" and x["result"] == 0:
             close_attempted = True
         if x["kind"] == "write" and x["frame"] and x["frame"]["op"] == 10 and not x["by_app"]:
             # a Pong written by the library: must be directly followed by its Ping event with the same payload
